@@ -231,9 +231,3 @@ Definition dk_lt (a b : dkey) : bool :=
   let (u2, w2) := dk_norm b in
   if w1 =? w2 then u1 <? u2
   else u1 ^ w2 * maxU32 ^ w1 <? u2 ^ w1 * maxU32 ^ w2.
-
-(* the power comparison is only evaluated for small weights *)
-Definition dk_comparable (bound : N) (a b : dkey) : bool :=
-  let (u1, w1) := dk_norm a in
-  let (u2, w2) := dk_norm b in
-  (w1 =? w2) || ((w1 <=? bound) && (w2 <=? bound)).
